@@ -62,6 +62,8 @@ class Overlay:
                     d['spec'] = (text, buf_line)
                 elif cur_sec[0] == 'entry':
                     d['entry'] = (text, buf_line)
+                elif cur_sec[0] == 'exit':
+                    d['exit'] = (text, buf_line)
                 elif cur_sec[0] == 'loop':
                     d['loops'][cur_sec[1]] = (text, buf_line)
                 elif cur_sec[0] == 'closure':
@@ -70,6 +72,14 @@ class Overlay:
                     d['beforeloop'][cur_sec[1]] = (text, buf_line)
                 elif cur_sec[0] == 'loopentry':
                     d['loopentry'][cur_sec[1]] = (text, buf_line)
+                elif cur_sec[0] == 'afterinit':
+                    d.setdefault('afterinit', {})[cur_sec[1]] = (text, buf_line)
+                elif cur_sec[0] == 'loopend':
+                    d.setdefault('loopend', {})[cur_sec[1]] = (text, buf_line)
+                elif cur_sec[0] == 'afterloop':
+                    d.setdefault('afterloop', {})[cur_sec[1]] = (text, buf_line)
+                elif cur_sec[0] == 'closurecall':
+                    d.setdefault('closurecall', {})[cur_sec[1]] = (text, buf_line)
                 elif cur_sec[0] == 'params':
                     d['params'] = (text.strip(), buf_line)
             buf = []
@@ -90,14 +100,26 @@ class Overlay:
             elif d == 'ret':
                 self.fns[cur_fn]['ret'] = arg
                 cur_sec = None
-            elif d in ('spec', 'entry', 'params'):
+            elif d in ('spec', 'entry', 'params', 'exit'):
                 cur_sec = (d,)
+            elif d == 'envcall':
+                # `//@ envcall METHOD ENVFN [RECV ...]`: R16, see FnRewriter._emit_range
+                parts = arg.split()
+                if len(parts) < 2:
+                    raise Undecided('overlay %s:%d: envcall needs METHOD ENVFN [RECV ...]' % (path, ln))
+                self.fns[cur_fn].setdefault('envcall', {})[parts[0]] = (parts[1], set(parts[2:]))
+                cur_sec = None
             elif d == 'loopvar':
                 n, name = arg.split()
                 self.fns[cur_fn]['loopvar'][int(n)] = name
                 cur_sec = None
-            elif d in ('loop', 'closure', 'beforeloop', 'loopentry'):
-                cur_sec = (d, int(arg))
+            elif d in ('loop', 'closure', 'beforeloop', 'loopentry', 'afterinit', 'loopend', 'closurecall', 'afterloop'):
+                parts = arg.split()
+                cur_sec = (d, int(parts[0]))
+                if d == 'loop' and 'optional' in parts[1:]:
+                    # `//@ loop N optional`: the N-th loop may be absent (a loop that only a
+                    # candidate repair adds); its absence is not an extraction failure
+                    self.fns[cur_fn].setdefault('optional_loops', set()).add(int(parts[0]))
             elif d in ('global', 'prelude'):
                 cur_fn = None
                 cur_sec = (d,)
@@ -163,6 +185,7 @@ class FnRewriter:
         self.unit = unit
         self.log = log
         self.relpath = os.path.relpath(sf.path, unit['repo'])
+        self._brk = []     # R10: stack of value variables of the enclosing value loops
 
     def origin(self, tokidx):
         return ('repo', self.relpath, self.sf.line_of(self.sf.toks[tokidx].start))
@@ -170,7 +193,7 @@ class FnRewriter:
     def emit(self):
         """Return list of Piece for this function."""
         toks = self.sf.toks
-        rw = set(self.unit.get('rewrites', ['R1', 'R2', 'R3', 'R8', 'R9']))
+        rw = set(self.unit.get('rewrites', ['R1', 'R2', 'R3', 'R4', 'R8', 'R9']))
         pathmap = self.unit.get('pathmap', {})
         pieces = []
         cur = []          # accumulating repo text
@@ -196,6 +219,9 @@ class FnRewriter:
         bo = self.bo
         if bo is None:
             raise Undecided('%s has no body' % self.fnkey)
+        if self.unit.get('_sig') is not None:
+            # R7 closure-lift: the header comes from unit.json ("sig"), the body is the closure's block
+            return self._emit_lifted(out, flush, overlay_piece, pieces, rw, pathmap)
         # locate params '(' ... ')' and the return arrow at depth 0
         j = self.s
         # find 'fn'
@@ -256,6 +282,46 @@ class FnRewriter:
             out(')' + _nl(''.join(x.text for x in toks[p_open:p_close + 1])), p_close)
             self.log.append({'rule': 'R8p', 'fn': self.fnkey, 'what': 'parameter list replaced by overlay',
                              'line': self.sf.line_of(toks[p_open].start)})
+        elif 'R4' in rw:
+            # R4: tuple-pattern parameter `(a, b): T` -> `__pN: T` + `let (a, b) = __pN;` at body entry
+            r4_lets = []
+            k = p_open + 1
+            out('(', p_open)
+            seg_start = k
+            angle = 0
+            while k <= p_close:
+                tk = toks[k]
+                if k < p_close and tk.kind == 'punct' and tk.text in '([':
+                    k = match_close(toks, k) + 1
+                    continue
+                if k < p_close and tk.kind == 'punct' and tk.text == '<':
+                    angle += 1
+                elif (k < p_close and tk.kind == 'punct' and tk.text == '>' and angle
+                        and toks[k - 1].text not in ('-', '=')):
+                    angle -= 1
+                if k == p_close or (tk.kind == 'punct' and tk.text == ',' and angle == 0):
+                    # one parameter: toks[seg_start:k]
+                    q = seg_start
+                    while q < k and toks[q].kind in ('ws', 'comment'):
+                        q += 1
+                    if q < k and toks[q].kind == 'punct' and toks[q].text == '(':
+                        pc2 = match_close(toks, q)
+                        pat_text = ''.join(x.text for x in toks[q:pc2 + 1] if x.kind != 'comment')
+                        name = '__p%d' % (len(r4_lets) + 1)
+                        r4_lets.append('let %s = %s;' % (' '.join(pat_text.split()), name))
+                        self.log.append({'rule': 'R4', 'fn': self.fnkey, 'line': self.sf.line_of(toks[q].start),
+                                         'what': 'tuple-pattern parameter %s bound as %s and destructured at body entry'
+                                                 % (' '.join(pat_text.split()), name)})
+                        for z in range(seg_start, q):
+                            out(toks[z].text if toks[z].kind != 'comment' else _nl(toks[z].text), z)
+                        out(name + _nl(pat_text), q)
+                        self._emit_range(pc2 + 1, k, out, rw, pathmap, in_body=False)
+                    else:
+                        self._emit_range(seg_start, k, out, rw, pathmap, in_body=False)
+                    out(toks[k].text, k)
+                    seg_start = k + 1
+                k += 1
+            self._r4_lets = r4_lets
         else:
             self._emit_range(p_open, p_close + 1, out, rw, pathmap, in_body=False)
         ret_end = where_kw if where_kw is not None else bo
@@ -278,6 +344,12 @@ class FnRewriter:
             overlay_piece('\n' + text, line - 1, 'spec')
         # ---- body
         out('{', bo)
+        for r4 in getattr(self, '_r4_lets', []):
+            flush()
+            pieces.append(Piece(' ' + r4, ('gen', 'R4 destructuring of a tuple-pattern parameter')))
+        if getattr(self, '_mut_self', False):
+            flush()
+            pieces.append(Piece(' let mut self_ = self;', ('gen', 'R12 mutable rebinding of a `mut self` receiver')))
         if 'entry' in self.ov:
             text, line = self.ov['entry']
             overlay_piece('\n' + text, line - 1, 'entry')
@@ -286,11 +358,26 @@ class FnRewriter:
             pieces.append(Piece('\n proof { assert(false); }\n', ('gen', 'canary', self.fnkey)))
         self._loop_no = 0
         self._closure_no = 0
-        self._emit_range(bo + 1, self.e + 1, out, rw, pathmap, in_body=True,
-                         overlay_piece=overlay_piece)
+        if 'exit' in self.ov:
+            # R8x: ghost statements at the fall-through exit of the function:
+            # after the last top-level `;` of the body (before a tail expression)
+            x = self._exit_point(bo, self.e)
+            self._emit_range(bo + 1, x, out, rw, pathmap, in_body=True,
+                             overlay_piece=overlay_piece)
+            text, line = self.ov['exit']
+            overlay_piece('\n' + text, line - 1, 'exit')
+            self._emit_range(x, self.e + 1, out, rw, pathmap, in_body=True,
+                             overlay_piece=overlay_piece)
+        else:
+            self._emit_range(bo + 1, self.e + 1, out, rw, pathmap, in_body=True,
+                             overlay_piece=overlay_piece)
         flush()
         # all overlay loop/closure anchors must have been consumed
         for n in self.ov['loops']:
+            if n > self._loop_no and n in self.ov.get('optional_loops', ()):
+                self.log.append({'rule': 'R8', 'fn': self.fnkey, 'line': 0,
+                                 'what': 'optional loop %d absent: its overlay clauses are not used' % n})
+                continue
             if n > self._loop_no:
                 raise Undecided('%s: overlay names loop %d but the function has %d loops'
                                 % (self.fnkey, n, self._loop_no))
@@ -299,6 +386,129 @@ class FnRewriter:
                 raise Undecided('%s: overlay names closure %d but the function has %d closures'
                                 % (self.fnkey, n, self._closure_no))
         return pieces
+
+    def _emit_lifted(self, out, flush, overlay_piece, pieces, rw, pathmap):
+        """R7: emit `SIG SPEC { closure body }` for a closure literal lifted to a fn."""
+        bo = self.bo
+        wrap = self.unit.get('_wrap')
+        out(self.unit['_sig'].rstrip() + ' ', bo)
+        if 'spec' in self.ov:
+            text, line = self.ov['spec']
+            overlay_piece('\n' + text, line - 1, 'spec')
+        out('{', bo)
+        if wrap:
+            # R7b: the lifted block's value is wrapped (e.g. `Ok(` .. `)`); `return` keeps its meaning
+            out(' %s {' % wrap[0], bo)
+        if 'entry' in self.ov:
+            text, line = self.ov['entry']
+            overlay_piece('\n' + text, line - 1, 'entry')
+        if self.unit.get('_canary'):
+            flush()
+            pieces.append(Piece('\n proof { assert(false); }\n', ('gen', 'canary', self.fnkey)))
+        self._loop_no = 0
+        self._closure_no = 0
+        if 'exit' in self.ov:
+            x = self._exit_point(bo, self.e)
+            self._emit_range(bo + 1, x, out, rw, pathmap, in_body=True, overlay_piece=overlay_piece)
+            text, line = self.ov['exit']
+            overlay_piece('\n' + text, line - 1, 'exit')
+            self._emit_range(x, self.e + 1, out, rw, pathmap, in_body=True, overlay_piece=overlay_piece)
+        else:
+            self._emit_range(bo + 1, self.e + 1, out, rw, pathmap, in_body=True, overlay_piece=overlay_piece)
+        if wrap:
+            out(' %s }' % wrap[1], self.e)
+        flush()
+        for n in self.ov['loops']:
+            if n > self._loop_no:
+                raise Undecided('%s: overlay names loop %d but the lifted closure has %d loops'
+                                % (self.fnkey, n, self._loop_no))
+        for n in self.ov['closures']:
+            if n > self._closure_no:
+                raise Undecided('%s: overlay names closure %d but the lifted closure has %d closures'
+                                % (self.fnkey, n, self._closure_no))
+        return pieces
+
+    def find_block_of_loop(self, n, up=1):
+        """R7b: (open, close) token indices of the `up`-th brace block enclosing the n-th loop
+        keyword of this fn (loops counted in textual order like the overlay anchors)."""
+        toks = self.sf.toks
+        cnt = 0
+        pos = None
+        for j in range(self.bo + 1, self.e):
+            t = toks[j]
+            if t.kind == 'ident' and t.text in ('loop', 'while', 'for') and self._is_loop_kw(j):
+                cnt += 1
+                if cnt == n:
+                    pos = j
+                    break
+        if pos is None:
+            raise Undecided('%s: loop %d not found (function has %d loops)' % (self.fnkey, n, cnt))
+        depth = 0
+        k = pos - 1
+        while k >= self.bo:
+            t = toks[k]
+            if t.kind == 'punct' and t.text in rustlex.CLOSE:
+                depth += 1
+            elif t.kind == 'punct' and t.text in rustlex.OPEN:
+                if depth == 0:
+                    if t.text == '{':
+                        up -= 1
+                        if up == 0:
+                            return k, match_close(toks, k)
+                else:
+                    depth -= 1
+            k -= 1
+        raise Undecided('%s: no enclosing block for loop %d' % (self.fnkey, n))
+
+    def find_closure(self, n):
+        """R7: (start_tok, body_open, body_close) of the n-th closure literal of this fn
+        (textual order, same counting as the `closure` overlay anchors); block bodies only."""
+        toks = self.sf.toks
+        cnt = 0
+        j = self.bo + 1
+        while j < self.e:
+            t = toks[j]
+            if t.kind == 'punct' and t.text == '|' and self._is_closure_start(j, self.bo + 1):
+                k = j + 1
+                if not (toks[k].kind == 'punct' and toks[k].text == '|'):
+                    depth = 0
+                    while k < self.e:
+                        tk = toks[k]
+                        if tk.kind == 'punct' and tk.text in '([<':
+                            depth += 1
+                        elif tk.kind == 'punct' and tk.text in ')]>':
+                            depth -= 1
+                        elif tk.kind == 'punct' and tk.text == '|' and depth <= 0:
+                            break
+                        k += 1
+                cnt += 1
+                if cnt == n:
+                    q = k + 1
+                    while q < self.e and toks[q].kind in ('ws', 'comment'):
+                        q += 1
+                    if not (toks[q].kind == 'punct' and toks[q].text == '{'):
+                        raise Undecided('%s: closure %d has no block body' % (self.fnkey, n))
+                    return j, q, match_close(toks, q)
+                j = k + 1
+                continue
+            j += 1
+        raise Undecided('%s: closure %d not found (function has %d closures)' % (self.fnkey, n, cnt))
+
+    def _exit_point(self, bo, e):
+        """Token index right after the last `;` at nesting depth 0 of the body
+        toks[bo..e] (bo+1 if the body has no top-level `;`)."""
+        toks = self.sf.toks
+        x = bo + 1
+        j = bo + 1
+        while j < e:
+            t = toks[j]
+            if t.kind == 'punct' and t.text in rustlex.OPEN:
+                j = match_close(toks, j) + 1
+                continue
+            if t.kind == 'punct' and t.text == ';':
+                x = j + 1
+            j += 1
+        return x
 
     def _map_paths_text(self, text, pathmap):
         if not pathmap:
@@ -352,6 +562,15 @@ class FnRewriter:
         keys = pathmap
         while j < hi:
             t = toks[j]
+            if overlay_piece and j in getattr(self, '_afterloop_at', {}):
+                n_aft = self._afterloop_at.pop(j)
+                text, line = self.ov['afterloop'][n_aft]
+                overlay_piece('\n' + text, line - 1, 'afterloop%d' % n_aft)
+            if overlay_piece and j in getattr(self, '_loopend_at', {}):
+                # `//@ loopend N`: ghost statements at the end of the n-th loop's body
+                n_end = self._loopend_at.pop(j)
+                text, line = self.ov['loopend'][n_end]
+                overlay_piece('\n' + text, line - 1, 'loopend%d' % n_end)
             # comments are dropped (newlines kept) so that overlay / canary
             # scans never see commented-out code
             if t.kind == 'comment':
@@ -369,6 +588,24 @@ class FnRewriter:
                         k += 1
                 j = k
                 continue
+            # R16: `IDENT.method()` (no arguments, plain identifier receiver) for a method named in an
+            #      `//@ envcall method envfn [idents]` directive  ==>  `envfn(IDENT)`.  For std calls the
+            #      verifier cannot express (tuple `clone`, `Iterator::cloned`); envfn is an assumed
+            #      contract in env.rs stating the std semantics.
+            if in_body and t.kind == 'ident' and self.ov.get('envcall'):
+                r11 = self._match_envcall(j, lo, hi)
+                if r11 is not None:
+                    envfn, end = r11
+                    self.log.append({'rule': 'R16', 'fn': self.fnkey, 'line': self.sf.line_of(t.start),
+                                     'what': '%s -> %s(%s)' % (''.join(x.text for x in toks[j:end]), envfn, t.text)})
+                    out('%s(%s)' % (envfn, t.text) + _nl(''.join(x.text for x in toks[j:end])), j)
+                    j = end
+                    continue
+            # R15: `RECV.m(|..| B)` with a `//@ closurecall n` section  ==>
+            #      `{ let __cN = |..| B; let __rN = RECV.m(__cN); <ghost> __rN }`
+            if in_body and overlay_piece and j in self._r15_starts():
+                j = self._emit_closurecall(j, self._r15_starts()[j], out, rw, pathmap, overlay_piece)
+                continue
             # R3: statement `X.for_each(|PAT| BODY)`  ==>  `for PAT in X { BODY }`
             if (in_body and 'R3' in rw and t.kind not in ('ws', 'comment')
                     and self._stmt_start(j, lo)):
@@ -376,6 +613,63 @@ class FnRewriter:
                 if fe is not None:
                     j = self._emit_for_each(j, fe, out, rw, pathmap, overlay_piece)
                     continue
+            if t.kind == 'ident' and t.text == 'mut' and not in_body and 'R12' in rw:
+                # R12 mut-self: `mut self` receiver -> `self`; body gets `let mut self_ = self;`
+                k = j + 1
+                while k < hi and toks[k].kind == 'ws':
+                    k += 1
+                pv = j - 1
+                while pv >= lo and toks[pv].kind in ('ws', 'comment'):
+                    pv -= 1
+                by_ref = pv >= lo and (toks[pv].text == '&' or toks[pv].kind == 'lifetime')   # `&mut self`, `&'a mut self`
+                if k < hi and toks[k].kind == 'ident' and toks[k].text == 'self' and not by_ref:
+                    self._mut_self = True
+                    self.log.append({'rule': 'R12', 'fn': self.fnkey, 'line': self.sf.line_of(t.start),
+                                     'what': '`mut self` receiver -> `self`; `let mut self_ = self;` at body entry, '
+                                             '`self` -> `self_` in the body'})
+                    j = k
+                    continue
+            if t.kind == 'ident' and in_body and 'R14' in rw:
+                # R14 metric-increment: `<path>.metrics.<counter> += 1;` -> `<path>.metrics.<counter> =
+                # metric_inc(<path>.metrics.<counter>);` (env function without contract: the new counter value
+                # is unspecified, so nothing is claimed about metric counters and their overflow is not decided)
+                pk = j - 1
+                while pk >= lo and toks[pk].kind in ('ws', 'comment'):
+                    pk -= 1
+                if not (pk >= lo and toks[pk].kind == 'punct' and toks[pk].text in '.:'):
+                    k = j
+                    chain = [t.text]
+                    while (k + 2 < hi and toks[k + 1].kind == 'punct' and toks[k + 1].text == '.'
+                           and toks[k + 2].kind == 'ident'):
+                        chain.append(toks[k + 2].text)
+                        k += 2
+                    q = k + 1
+                    while q < hi and toks[q].kind == 'ws':
+                        q += 1
+                    if (len(chain) >= 2 and chain[-2] == 'metrics' and q + 1 < hi
+                            and toks[q].kind == 'punct' and toks[q].text == '+'
+                            and toks[q + 1].kind == 'punct' and toks[q + 1].text == '='):
+                        q2 = q + 2
+                        while q2 < hi and toks[q2].kind == 'ws':
+                            q2 += 1
+                        if q2 < hi and toks[q2].text == '1':
+                            q3 = q2 + 1
+                            while q3 < hi and toks[q3].kind == 'ws':
+                                q3 += 1
+                            if q3 < hi and toks[q3].kind == 'punct' and toks[q3].text in ';}':
+                                if chain[0] == 'self' and getattr(self, '_mut_self', False):
+                                    chain[0] = 'self_'
+                                ctext = '.'.join(chain)
+                                self.log.append({'rule': 'R14', 'fn': self.fnkey, 'line': self.sf.line_of(t.start),
+                                                 'what': '%s += 1 -> %s = metric_inc(%s)' % (ctext, ctext, ctext)})
+                                out('%s = metric_inc(%s)' % (ctext, ctext)
+                                    + _nl(''.join(x.text for x in toks[j:q2 + 1])), j)
+                                j = q2 + 1
+                                continue
+            if t.kind == 'ident' and t.text == 'self' and in_body and getattr(self, '_mut_self', False):
+                out('self_', j)
+                j += 1
+                continue
             if t.kind == 'ident':
                 mo = is_macro_call(toks, j)
                 if mo is not None and j + 1 < hi:
@@ -405,15 +699,49 @@ class FnRewriter:
                 if t.text == 'await' and 'R6' in rw:
                     # drop preceding '.' already emitted?  handled below via lookahead
                     pass
+                # R10: `break VALUE` (always belongs to the innermost enclosing `loop`, which is a value loop)
+                if in_body and t.text == 'break' and 'R10' in rw and self._brk:
+                    q = j + 1
+                    while q < hi and toks[q].kind in ('ws', 'comment'):
+                        q += 1
+                    if toks[q].kind == 'lifetime':
+                        raise Undecided('%s: labelled break inside a value loop is not supported by R10' % self.fnkey)
+                    if not (toks[q].kind == 'punct' and toks[q].text in ';,}'):
+                        e2 = q
+                        while e2 < hi:
+                            te = toks[e2]
+                            if te.kind == 'punct' and te.text in rustlex.OPEN:
+                                e2 = match_close(toks, e2) + 1
+                                continue
+                            if te.kind == 'punct' and te.text in ',;)]}':
+                                break
+                            e2 += 1
+                        out('{ %s = ' % self._brk[-1], j)
+                        self._emit_range(q, e2, out, rw, pathmap, in_body, overlay_piece)
+                        out('; break }', e2 - 1)
+                        j = e2
+                        continue
                 # loop anchors
                 if in_body and t.text in ('loop', 'while', 'for') and self._is_loop_kw(j):
                     self._loop_no += 1
                     n = self._loop_no
+                    vb = None
+                    if t.text == 'loop' and 'R10' in rw and self._has_value_break(self._loop_body_open(j, hi)):
+                        # R10: `loop { .. break V .. }` ==> `{ let __brkN; loop { .. { __brkN = V; break } .. } __brkN }`
+                        vb = '__brk%d' % n
+                        self.log.append({'rule': 'R10', 'fn': self.fnkey, 'line': self.sf.line_of(t.start),
+                                         'what': 'loop with `break VALUE` desugared: value carried in %s' % vb})
+                        out('{ let %s; ' % vb, j)
                     if overlay_piece and n in self.ov['beforeloop']:
                         text, line = self.ov['beforeloop'][n]
                         overlay_piece(text, line, 'beforeloop%d' % n)
                     # find the body '{'
                     b = self._loop_body_open(j, hi)
+                    if overlay_piece and n in self.ov.get('loopend', {}):
+                        self.__dict__.setdefault('_loopend_at', {})[match_close(toks, b)] = n
+                    if overlay_piece and n in self.ov.get('afterloop', {}):
+                        # `//@ afterloop N`: ghost statements right after the closing brace of the n-th loop
+                        self.__dict__.setdefault('_afterloop_at', {})[match_close(toks, b) + 1] = n
                     des = self._for_mut_iter(j, b) if (t.text == 'for' and 'R9' in rw) else None
                     if des is not None:
                         # R9: `for PAT in &mut IT { B }`  ==>  `loop { match IT.next() { Some(PAT) => { B } None => break, } }`
@@ -432,6 +760,76 @@ class FnRewriter:
                         out(' match %s.next() { Some(%s) => {' % (itname, pat), b)
                         self._emit_range(b + 1, e, out, rw, pathmap, in_body, overlay_piece)
                         out('} None => break, } }', e)
+                        j = e + 1
+                        continue
+                    enu = self._for_enumerate(j, b) if (t.text == 'for' and 'R11' in rw) else None
+                    if enu is not None:
+                        # R11: `for (I, X) in E.enumerate() { B }`  ==>
+                        #   `{ let mut __enum_n: usize = 0; for X in [it:] E { let I = __enum_n; __enum_n += 1; B } }`
+                        # (the std definition of Enumerate::next: count is read, then incremented, per item)
+                        ivar, xpat, in_kw, dot = enu
+                        e = match_close(toks, b)
+                        self.log.append({'rule': 'R11', 'fn': self.fnkey, 'line': self.sf.line_of(t.start),
+                                         'what': 'for (%s, %s) in <E>.enumerate() desugared to a counter __enum_n over <E>' % (ivar, xpat)})
+                        out('{ let mut __enum_n: usize = 0; for %s in' % xpat + _nl(''.join(x.text for x in toks[j:in_kw + 1])), j)
+                        if n in self.ov.get('loopvar', {}):
+                            out(' %s:' % self.ov['loopvar'][n], in_kw)
+                        self._emit_range(in_kw + 1, dot, out, rw, pathmap, in_body, overlay_piece)
+                        out(_nl(''.join(x.text for x in toks[dot:b])), dot)
+                        if overlay_piece and n in self.ov['loops']:
+                            text, line = self.ov['loops'][n]
+                            overlay_piece('\n' + text, line - 1, 'loop%d' % n)
+                        out('{ let %s = __enum_n; __enum_n += 1;' % ivar, b)
+                        if overlay_piece and n in self.ov['loopentry']:
+                            text, line = self.ov['loopentry'][n]
+                            overlay_piece('\n' + text, line - 1, 'loopentry%d' % n)
+                        self._emit_range(b + 1, e, out, rw, pathmap, in_body, overlay_piece)
+                        if overlay_piece and e in getattr(self, '_loopend_at', {}):
+                            n_end = self._loopend_at.pop(e)
+                            text, line = self.ov['loopend'][n_end]
+                            overlay_piece('\n' + text, line - 1, 'loopend%d' % n_end)
+                        out('} }', e)
+                        j = e + 1
+                        continue
+                    if t.text == 'for' and 'R13' in rw and n not in self.ov.get('loopvar', {}):
+                        # R13: `for PAT in EXPR { B }`  ==>
+                        #   `{ let mut iter_N = EXPR; loop { match iter_N.next() { Some(PAT) => { B } None => break, } } }`
+                        # (std desugaring of `for` with IntoIterator::into_iter being the identity on
+                        # an Iterator; if EXPR is not itself an Iterator the result does not type-check
+                        # => undecided).  Needed because Verus rejects `continue` inside `for`.
+                        q = j + 1
+                        while q < b:
+                            tq = toks[q]
+                            if tq.kind == 'punct' and tq.text in '([':
+                                q = match_close(toks, q)
+                            elif tq.kind == 'ident' and tq.text == 'in':
+                                break
+                            q += 1
+                        if q >= b:
+                            raise Undecided('%s: R13 cannot find `in` of for-loop %d' % (self.fnkey, n))
+                        pat = ''.join(x.text for x in toks[j + 1:q] if x.kind != 'comment').strip()
+                        itname = 'iter_%d' % n
+                        e = match_close(toks, b)
+                        self.log.append({'rule': 'R13', 'fn': self.fnkey, 'line': self.sf.line_of(t.start),
+                                         'what': 'for %s in EXPR desugared to let mut %s = EXPR; loop/match %s.next()'
+                                                 % (pat, itname, itname)})
+                        out('{ let mut %s = ' % itname, j)
+                        self._emit_range(q + 1, b, out, rw, pathmap, in_body, overlay_piece)
+                        out('; ', b)
+                        if overlay_piece and n in self.ov.get('afterinit', {}):
+                            text, line = self.ov['afterinit'][n]
+                            overlay_piece('\n' + text, line - 1, 'afterinit%d' % n)
+                        out('loop', b)
+                        if overlay_piece and n in self.ov['loops']:
+                            text, line = self.ov['loops'][n]
+                            overlay_piece('\n' + text, line - 1, 'loop%d' % n)
+                        out('{', b)
+                        if overlay_piece and n in self.ov['loopentry']:
+                            text, line = self.ov['loopentry'][n]
+                            overlay_piece('\n' + text, line - 1, 'loopentry%d' % n)
+                        out(' match %s.next() { Some(%s) => {' % (itname, pat), b)
+                        self._emit_range(b + 1, e, out, rw, pathmap, in_body, overlay_piece)
+                        out('} None => break, } } }', e)
                         j = e + 1
                         continue
                     self._emit_range(j, j + 1, lambda tx, k: out(tx, k), set(), {}, False)
@@ -457,6 +855,15 @@ class FnRewriter:
                     if overlay_piece and n in self.ov['loopentry']:
                         text, line = self.ov['loopentry'][n]
                         overlay_piece('\n' + text, line - 1, 'loopentry%d' % n)
+                    if vb is not None:
+                        # R10: the body is emitted with `break V` rewritten, then the value is yielded
+                        e = match_close(toks, b)
+                        self._brk.append(vb)
+                        self._emit_range(b + 1, e, out, rw, pathmap, in_body, overlay_piece)
+                        self._brk.pop()
+                        out('} %s }' % vb, e)
+                        j = e + 1
+                        continue
                     j = b + 1
                     continue
                 # path mapping
@@ -661,6 +1068,332 @@ class FnRewriter:
         out(' }' + _nl(''.join(x.text for x in toks[body_hi:pc + 1])), pc)
         return pc + 1
 
+    # ------------------------------------------------------------ R16 env call
+    def _match_envcall(self, j, lo, hi):
+        """toks[j] is an identifier that starts an expression `IDENT . METHOD ( )`."""
+        toks = self.sf.toks
+        k = j - 1
+        while k >= lo and toks[k].kind in ('ws', 'comment'):
+            k -= 1
+        if k >= lo and toks[k].kind == 'punct' and toks[k].text in '.:':
+            return None          # a field / path segment, not a plain variable
+        seq = []
+        q = j + 1
+        while q < hi and len(seq) < 4:
+            if toks[q].kind not in ('ws', 'comment'):
+                seq.append(q)
+            q += 1
+        if len(seq) < 4:
+            return None
+        a, b, c, d = seq
+        if not (toks[a].text == '.' and toks[b].kind == 'ident' and toks[c].text == '(' and toks[d].text == ')'):
+            return None
+        ent = self.ov['envcall'].get(toks[b].text)
+        if ent is None:
+            return None
+        envfn, idents = ent
+        if idents and toks[j].text not in idents:
+            return None
+        return envfn, d + 1
+
+    # ------------------------------------------------------------ R15 closure-call naming
+    def _r15_starts(self):
+        """token index of the receiver start -> (n, dot, name_idx, paren_open, paren_close, bar_open)
+        for every closure n that has a `//@ closurecall n` section."""
+        if hasattr(self, '_r15_cache'):
+            return self._r15_cache
+        res = {}
+        toks = self.sf.toks
+        lo = self.bo + 1
+        for n in sorted(self.ov.get('closurecall', {})):
+            bar_o, bar_c, b_lo, b_hi, is_block = self._find_closure(n)
+            # the closure must be the sole argument of a method call: `. name ( |..| B )`
+            k = bar_o - 1
+            while k >= lo and toks[k].kind in ('ws', 'comment'):
+                k -= 1
+            if not (toks[k].kind == 'punct' and toks[k].text == '('):
+                raise Undecided('%s: closurecall %d: the closure is not the first argument of a call' % (self.fnkey, n))
+            po = k
+            pc = match_close(toks, po)
+            q = (b_hi + 1) if is_block else b_hi
+            while q < pc and toks[q].kind in ('ws', 'comment'):
+                q += 1
+            if q < pc and toks[q].kind == 'punct' and toks[q].text == ',':
+                q += 1
+                while q < pc and toks[q].kind in ('ws', 'comment'):
+                    q += 1
+            if q != pc:
+                raise Undecided('%s: closurecall %d: the closure is not the sole argument of the call' % (self.fnkey, n))
+            k = po - 1
+            while k >= lo and toks[k].kind in ('ws', 'comment'):
+                k -= 1
+            if toks[k].kind != 'ident':
+                raise Undecided('%s: closurecall %d: callee is not a method name' % (self.fnkey, n))
+            name_idx = k
+            k -= 1
+            while k >= lo and toks[k].kind in ('ws', 'comment'):
+                k -= 1
+            if not (toks[k].kind == 'punct' and toks[k].text == '.'):
+                raise Undecided('%s: closurecall %d: callee is not a method call' % (self.fnkey, n))
+            dot = k
+            # receiver: a plain identifier / field path  a.b.c  (no calls: evaluation order is
+            # then trivially unaffected by hoisting the closure literal in front of it)
+            k = dot - 1
+            start = None
+            expect_ident = True
+            while k >= lo:
+                tk = toks[k]
+                if tk.kind in ('ws', 'comment'):
+                    k -= 1
+                    continue
+                if expect_ident and tk.kind == 'ident':
+                    start = k
+                    expect_ident = False
+                    k -= 1
+                    continue
+                if (not expect_ident) and tk.kind == 'punct' and tk.text == '.':
+                    expect_ident = True
+                    k -= 1
+                    continue
+                break
+            if start is None or expect_ident:
+                raise Undecided('%s: closurecall %d: receiver is not a plain variable or field path' % (self.fnkey, n))
+            res[start] = (n, dot, name_idx, po, pc, bar_o)
+        self._r15_cache = res
+        return res
+
+    def _emit_closurecall(self, j, info, out, rw, pathmap, overlay_piece):
+        toks = self.sf.toks
+        n, dot, name_idx, po, pc, bar_o = info
+        recv = ''.join(x.text for x in toks[j:dot] if x.kind != 'comment').strip()
+        meth = toks[name_idx].text
+        self.log.append({'rule': 'R15', 'fn': self.fnkey, 'line': self.sf.line_of(toks[j].start),
+                         'what': '%s.%s(<closure %d>) rewritten to { let __c%d = <closure %d>; let __r%d = %s.%s(__c%d); '
+                                 '<ghost> __r%d }' % (recv, meth, n, n, n, n, recv, meth, n, n)})
+        out('{ let __c%d = ' % n, j)
+        # the closure literal itself goes through the normal path (R8c header replacement, numbering)
+        self._emit_range(bar_o, pc, out, rw, pathmap, True, overlay_piece)
+        out('; let __r%d = ' % n + _nl(''.join(x.text for x in toks[po + 1:bar_o])), pc)
+        self._emit_range(j, po + 1, out, set(), pathmap, False)
+        out('__c%d); ' % n, pc)
+        text, line = self.ov['closurecall'][n]
+        overlay_piece('\n' + text, line - 1, 'closurecall%d' % n)
+        out(' __r%d }' % n, pc)
+        return pc + 1
+
+    # ------------------------------------------------------------ R7 closure-lift
+    def _find_closure(self, n):
+        """Locate the n-th closure literal of this function's body (same textual
+        order and the same skipping of dropped macro calls as _emit_range).
+        Returns (bar_open, bar_close, body_lo, body_hi, is_block): the header is
+        toks[bar_open..bar_close], the body is toks[body_lo:body_hi]."""
+        toks = self.sf.toks
+        rw = set(self.unit.get('rewrites', ['R1', 'R2', 'R3', 'R4', 'R8', 'R9']))
+        lo, hi = self.bo + 1, self.e
+        j = lo
+        count = 0
+        while j < hi:
+            t = toks[j]
+            if t.kind == 'ident':
+                mo = is_macro_call(toks, j)
+                if mo is not None and ((t.text in LOG_MACROS and 'R1' in rw) or
+                                       (t.text in FMT_MACROS + WRITE_MACROS and 'R2' in rw)):
+                    j = match_close(toks, mo) + 1
+                    continue
+            if t.kind == 'punct' and t.text == '|' and self._is_closure_start(j, lo):
+                k = j + 1
+                if toks[k].kind == 'punct' and toks[k].text == '|':
+                    ce = k
+                else:
+                    depth = 0
+                    while k < hi:
+                        tk = toks[k]
+                        if tk.kind == 'punct' and tk.text in '([<':
+                            depth += 1
+                        elif tk.kind == 'punct' and tk.text in ')]>':
+                            depth -= 1
+                        elif tk.kind == 'punct' and tk.text == '|' and depth <= 0:
+                            break
+                        k += 1
+                    ce = k
+                count += 1
+                if count == n:
+                    q = ce + 1
+                    while q < hi and toks[q].kind in ('ws', 'comment'):
+                        q += 1
+                    if toks[q].kind == 'punct' and toks[q].text == '-' and toks[q + 1].text == '>':
+                        # explicit return type: the body is the next block
+                        while not (toks[q].kind == 'punct' and toks[q].text == '{'):
+                            q += 1
+                    if toks[q].kind == 'punct' and toks[q].text == '{':
+                        return j, ce, q + 1, match_close(toks, q), True
+                    e = q
+                    while e < hi:
+                        te = toks[e]
+                        if te.kind == 'punct' and te.text in rustlex.OPEN:
+                            e = match_close(toks, e) + 1
+                            continue
+                        if te.kind == 'punct' and te.text in ',)]};':
+                            break
+                        e += 1
+                    return j, ce, q, e, False
+                j = ce + 1
+                continue
+            j += 1
+        raise Undecided('%s: closure %d not found (the function has %d closures)' % (self.fnkey, n, count))
+
+    @staticmethod
+    def _pattern_idents(text):
+        """Binding names of a parameter list text `a, (b, c): T, mut d: U`."""
+        ts = [x for x in lex(text) if x.kind not in ('ws', 'comment')]
+        names = []
+        depth = 0
+        in_type = False
+        for i, x in enumerate(ts):
+            if x.kind == 'punct' and x.text in '<[':
+                depth += 1 if in_type else 0
+            elif x.kind == 'punct' and x.text in '>]' and in_type and depth:
+                depth -= 1
+            elif x.kind == 'punct' and x.text == ':' and depth == 0:
+                nxt = ts[i + 1].text if i + 1 < len(ts) else ''
+                prv = ts[i - 1].text if i else ''
+                if nxt != ':' and prv != ':':
+                    in_type = True
+            elif x.kind == 'punct' and x.text == ',' and depth == 0:
+                in_type = False
+            elif x.kind == 'ident' and not in_type and x.text not in ('mut', 'ref', '_'):
+                names.append(x.text)
+        return names
+
+    def emit_lifted(self, n, as_name, sig, subst):
+        """R7: the body text of the n-th closure literal of this function becomes
+        the body of a synthesized `fn as_name sig`.  `sig` ("(params) -> Ret") is
+        declared in unit.json and lists the closure's own parameters plus the
+        captured variables; `return` keeps its meaning (it returned from the
+        closure, it returns from the lifted fn).  `subst` maps identifiers of
+        captured-by-&mut locals to their replacement text (`x` -> `(*x)`)."""
+        toks = self.sf.toks
+        rw = set(self.unit.get('rewrites', ['R1', 'R2', 'R3', 'R4', 'R8', 'R9']))
+        pathmap = self.unit.get('pathmap', {})
+        bar_o, bar_c, b_lo, b_hi, is_block = self._find_closure(n)
+        header = ''.join(x.text for x in toks[bar_o:bar_c + 1])
+        # split sig into params and return type
+        sig = sig.strip()
+        st = lex(sig)
+        k = 0
+        while st[k].kind == 'ws':
+            k += 1
+        if not (st[k].kind == 'punct' and st[k].text == '('):
+            raise Undecided('%s: "sig" must start with a parameter list' % self.fnkey)
+        pc = match_close(st, k)
+        params = ''.join(x.text for x in st[k:pc + 1])
+        rest = ''.join(x.text for x in st[pc + 1:]).strip()
+        ret = None
+        if rest:
+            if not rest.startswith('->'):
+                raise Undecided('%s: "sig" has trailing text that is not a return type' % self.fnkey)
+            ret = rest[2:].strip()
+        # the closure's own parameters must all be parameters of the lifted fn
+        own = self._pattern_idents(header.strip()[1:-1])
+        declared = self._pattern_idents(params[1:-1])
+        if 'self' in [x.text for x in lex(params) if x.kind == 'ident']:
+            declared.append('self')
+        missing = [x for x in own if x not in declared]
+        if missing:
+            raise Undecided('%s: closure parameter(s) %s of closure %d are not parameters of the declared sig'
+                            % (self.fnkey, ', '.join(missing), n))
+        line = self.sf.line_of(toks[bar_o].start)
+        self.log.append({'rule': 'R7', 'fn': self.fnkey, 'line': line,
+                         'what': 'closure %d (%s) lifted to fn %s%s' % (n, ' '.join(header.split()), as_name,
+                                                                        ' '.join(self._map_paths_text(sig, pathmap).split()))})
+        pieces = []
+        cur = []
+        cur_origin = [None]
+
+        def raw_out(text, tokidx):
+            if cur_origin[0] is None:
+                cur_origin[0] = self.origin(tokidx)
+            cur.append(text)
+
+        def out(text, tokidx):
+            t = toks[tokidx]
+            if subst and t.kind == 'ident' and text == t.text and t.text in subst:
+                p = tokidx - 1
+                while p >= b_lo and toks[p].kind in ('ws', 'comment'):
+                    p -= 1
+                nx = tokidx + 1
+                while nx < b_hi and toks[nx].kind in ('ws', 'comment'):
+                    nx += 1
+                is_field = p >= b_lo and toks[p].kind == 'punct' and toks[p].text == '.'
+                is_path = (p >= b_lo and toks[p].text == ':') or (nx < b_hi and toks[nx].text == ':' and
+                                                                   nx + 1 < b_hi and toks[nx + 1].text == ':')
+                if not is_field and not is_path:
+                    self.log.append({'rule': 'R7s', 'fn': self.fnkey, 'line': self.sf.line_of(t.start),
+                                     'what': 'captured variable %s -> %s' % (t.text, subst[t.text])})
+                    text = subst[t.text]
+            raw_out(text, tokidx)
+
+        def flush():
+            if cur:
+                pieces.append(Piece(''.join(cur), cur_origin[0]))
+                cur.clear()
+            cur_origin[0] = None
+
+        def overlay_piece(text, oline, section):
+            flush()
+            pieces.append(Piece(text if text.endswith('\n') else text + '\n',
+                                ('overlay', self.unit['overlay_path'], oline, self.fnkey, section)))
+
+        head = 'fn %s%s' % (as_name, self._map_paths_text(params, pathmap))
+        if ret is not None:
+            head += ' -> (%s: %s)' % (self.ov.get('ret', 'res'), self._map_paths_text(ret, pathmap))
+        flush()
+        pieces.append(Piece(head + '\n', ('gen', 'R7 signature of lifted closure (declared in unit.json)')))
+        if 'spec' in self.ov:
+            text, oline = self.ov['spec']
+            overlay_piece('\n' + text, oline - 1, 'spec')
+        pieces.append(Piece('{', ('gen', 'R7 body open')))
+        if 'entry' in self.ov:
+            text, oline = self.ov['entry']
+            overlay_piece('\n' + text, oline - 1, 'entry')
+        if self.unit.get('_canary'):
+            pieces.append(Piece('\n proof { assert(false); }\n', ('gen', 'canary', self.fnkey)))
+        self._loop_no = 0
+        self._closure_no = 0
+        self._emit_range(b_lo, b_hi, out, rw, pathmap, in_body=True, overlay_piece=overlay_piece)
+        flush()
+        pieces.append(Piece('}\n', ('gen', 'R7 body close')))
+        for m in self.ov['loops']:
+            if m > self._loop_no:
+                raise Undecided('%s: overlay names loop %d but the lifted closure has %d loops'
+                                % (self.fnkey, m, self._loop_no))
+        for m in self.ov['closures']:
+            if m > self._closure_no:
+                raise Undecided('%s: overlay names closure %d but the lifted closure has %d closures'
+                                % (self.fnkey, m, self._closure_no))
+        self.lifted_span = (bar_o, b_hi if not is_block else b_hi)
+        return pieces
+
+    def _has_value_break(self, b):
+        """R10: does the loop body opened at toks[b] contain a `break EXPR` of its own
+        (breaks of nested loops are skipped)?"""
+        toks = self.sf.toks
+        e = match_close(toks, b)
+        j = b + 1
+        while j < e:
+            t = toks[j]
+            if t.kind == 'ident' and t.text in ('loop', 'while', 'for') and self._is_loop_kw(j):
+                j = match_close(toks, self._loop_body_open(j, e)) + 1
+                continue
+            if t.kind == 'ident' and t.text == 'break':
+                q = j + 1
+                while q < e and toks[q].kind in ('ws', 'comment'):
+                    q += 1
+                if toks[q].kind != 'lifetime' and not (toks[q].kind == 'punct' and toks[q].text in ';,}'):
+                    return True
+            j += 1
+        return False
+
     def _for_mut_iter(self, j, b):
         """`for PAT in &mut IDENT {` -> (PAT text, IDENT) else None."""
         toks = self.sf.toks
@@ -682,6 +1415,37 @@ class FnRewriter:
         if len(rest) == 3 and rest[0].text == '&' and rest[1].text == 'mut' and rest[2].kind == 'ident':
             return pat, rest[2].text
         return None
+
+    def _for_enumerate(self, j, b):
+        """`for (I, X) in EXPR.enumerate() {` -> (I, X text, index of `in`, index of the
+        `.` before `enumerate`) else None.  I must be a plain identifier."""
+        toks = self.sf.toks
+        k = j + 1
+        in_kw = None
+        while k < b:
+            t = toks[k]
+            if t.kind == 'punct' and t.text in '([':
+                k = match_close(toks, k)
+            elif t.kind == 'ident' and t.text == 'in':
+                in_kw = k
+                break
+            k += 1
+        if in_kw is None:
+            return None
+        sig = [q for q in range(in_kw + 1, b) if toks[q].kind not in ('ws', 'comment')]
+        if len(sig) < 5:
+            return None
+        tail = sig[-4:]
+        if [toks[q].text for q in tail] != ['.', 'enumerate', '(', ')']:
+            return None
+        pat = [q for q in range(j + 1, in_kw) if toks[q].kind not in ('ws', 'comment')]
+        if len(pat) < 5 or toks[pat[0]].text != '(' or match_close(toks, pat[0]) != pat[-1]:
+            return None
+        if toks[pat[1]].kind != 'ident' or toks[pat[2]].text != ',':
+            return None
+        ivar = toks[pat[1]].text
+        xpat = ''.join(toks[q].text for q in range(pat[3], pat[-1])).strip()
+        return ivar, xpat, in_kw, tail[0]
 
     def _is_loop_kw(self, j):
         """`for` also appears in `impl Trait for`, HRTB `for<'a>`; inside a
@@ -746,6 +1510,31 @@ class FnRewriter:
 
 
 # ---------------------------------------------------------------- unit assembly
+
+def find_nested_fn(sf, parent, name, unit_name):
+    """Locate `fn name` written inside the body of the fn item `parent`."""
+    toks = sf.toks
+    kind, pname, s, e, bo = parent
+    if bo is None:
+        raise Undecided('%s: fn %s has no body' % (unit_name, pname))
+    hits = []
+    j = bo + 1
+    while j < e:
+        t = toks[j]
+        if t.kind == 'ident' and t.text == 'fn':
+            k = j + 1
+            while toks[k].kind in ('ws', 'comment'):
+                k += 1
+            if toks[k].kind == 'ident' and toks[k].text == name:
+                b, ch = rustlex.find_body_open(toks, k + 1)
+                if ch == '{':
+                    hits.append(('fn', name, j, match_close(toks, b), b))
+        j += 1
+    if len(hits) != 1:
+        raise Undecided('%s: expected exactly one `fn %s` nested in `fn %s`, found %d'
+                        % (unit_name, name, pname, len(hits)))
+    return hits[0]
+
 
 def load_unit(unit_dir, repo):
     u = json.load(open(os.path.join(unit_dir, 'unit.json')))
@@ -838,12 +1627,47 @@ def build(unit_dir, repo, canary=False):
     for it in unit['items']:
         sf = sf_for(it['file'])
         mod = it.get('mod')
+        if 'assoc_type' in it and 'impl' in it and 'fn' not in it:
+            # associated type of a trait impl (`type X = ...;`): copied verbatim into the impl
+            # block it shares with the fn items of the same impl that follow / precede it
+            hits = []
+            for mods_, cand in sf.items():
+                if cand[0] != 'impl' or cand[4] is None or (mod is not None and mods_ != mod):
+                    continue
+                if rustlex.impl_header_norm(cand[1]) != rustlex.norm(it['impl']):
+                    continue
+                for sub in rustlex.top_items(sf.toks, cand[4] + 1, cand[3]):
+                    if sub[0] == 'type' and sub[1] == it['assoc_type']:
+                        hits.append((cand, sub))
+            if len(hits) != 1:
+                raise Undecided('%s: expected exactly one `type %s` in `impl %s` of %s, found %d'
+                                % (unit['name'], it['assoc_type'], it['impl'], it['file'], len(hits)))
+            impl_item, ty_item = hits[0]
+            raw_h = sf.text(impl_item[2], impl_item[4] - 1)
+            header = FnRewriter(sf, ty_item, it['assoc_type'], None, unit, [])._map_paths_text(
+                raw_h[raw_h.index('impl'):], unit.get('pathmap', {}))
+            if header != open_impl:
+                if open_impl is not None:
+                    pieces.append(Piece('}\n', ('gen', 'impl close')))
+                pieces.append(Piece(header.rstrip() + ' {\n', ('gen', 'impl header from ' + it['file'])))
+                open_impl = header
+            raw = sf.text(ty_item[2], ty_item[3])
+            text = strip_attrs_and_docs(sf, ty_item[2], ty_item[3])
+            text = FnRewriter(sf, ty_item, it['assoc_type'], None, unit, [])._map_paths_text(text, unit.get('pathmap', {}))
+            pieces.append(Piece(text + '\n', ('repo', it['file'], sf.line_of(sf.toks[ty_item[2]].start))))
+            items_info.append({'assoc_type': it['assoc_type'], 'file': it['file'],
+                               'line': sf.line_of(sf.toks[ty_item[2]].start), 'sha256': sha(raw)})
+            continue
         if 'fn' in it:
             impl_key = it.get('impl')
             fnkey = (impl_key.split('<')[0] if impl_key and ' for ' not in impl_key else (impl_key or '')).strip()
-            fnkey = it.get('key') or ((fnkey + '::' if fnkey else '') + it['fn'])
+            fnkey = it.get('key') or ((fnkey + '::' if fnkey else '') + (it['as'] if ('closure' in it and 'as' in it) else it['fn']))
+            # R7 / nested fn: `lookup` is the enclosing top-level fn that is searched for
+            lookup = it['within'] if 'within' in it else it['fn']
+            if 'closure' in it and 'sig' not in it:
+                raise Undecided('%s: a "closure" item needs "sig" (and "as" or "key")' % unit['name'])
             if impl_key:
-                found = sf.find_impl_fn(impl_key, it['fn'], mod)
+                found = sf.find_impl_fn(impl_key, lookup, mod)
                 if len(found) != 1:
                     raise Undecided('%s: expected exactly one `fn %s` in `impl %s` of %s, found %d'
                                     % (unit['name'], it['fn'], impl_key, it['file'], len(found)))
@@ -854,24 +1678,66 @@ def build(unit_dir, repo, canary=False):
                     header = raw[raw.index('impl'):]
                 header = FnRewriter(sf, fn_item, fnkey, None, unit, [])._map_paths_text(header, unit.get('pathmap', {}))
             else:
-                found = sf.find_item('fn', it['fn'], mod)
+                found = sf.find_item('fn', lookup, mod)
                 if len(found) != 1:
                     raise Undecided('%s: expected exactly one free `fn %s` in %s, found %d'
-                                    % (unit['name'], it['fn'], it['file'], len(found)))
+                                    % (unit['name'], lookup, it['file'], len(found)))
                 fn_item = found[0]
                 header = None
+            if 'within' in it:
+                # a fn item nested in the body of `within`: it captures nothing and cannot
+                # name Self, so it is emitted as a free function
+                fn_item = find_nested_fn(sf, fn_item, it['fn'], unit['name'])
+                header = None
+                log.append({'rule': 'R7n', 'fn': fnkey, 'line': sf.line_of(sf.toks[fn_item[2]].start),
+                            'what': 'fn %s nested in fn %s emitted as a free function' % (it['fn'], it['within'])})
             if header != open_impl:
                 if open_impl is not None:
                     pieces.append(Piece('}\n', ('gen', 'impl close')))
                 if header is not None:
                     pieces.append(Piece(header.rstrip() + ' {\n', ('gen', 'impl header from ' + it['file'])))
                 open_impl = header
+            lifted = None
+            wrap = None
+            if 'block_of_loop' in it:
+                # R7b block-lift: the brace block enclosing the n-th loop of the function becomes a fn
+                if 'sig' not in it or 'key' not in it:
+                    raise Undecided('block item needs "sig" and "key": %r' % it)
+                cbo, ce = FnRewriter(sf, fn_item, fnkey, None, unit, []).find_block_of_loop(
+                    int(it['block_of_loop']), int(it.get('enclosing', 1)))
+                fn_item = ('fn', it['key'], cbo, ce, cbo)
+                lifted = it['sig']
+                wrap = it.get('wrap')
+                log.append({'rule': 'R7b', 'fn': fnkey, 'line': sf.line_of(sf.toks[cbo].start),
+                            'what': 'block enclosing loop %s of %s::%s lifted to `%s`%s' % (
+                                it['block_of_loop'], it.get('impl', ''), it['fn'], it['sig'],
+                                (' with its value wrapped as %s<block>%s' % tuple(wrap)) if wrap else '')})
+            if 'closure' in it and 'as' not in it:
+                # R7 closure-lift (shape "closure"+"sig"+"key"; the shape with "as" is handled by emit_lifted below):
+                # the n-th closure literal of the function becomes a fn
+                if 'sig' not in it or 'key' not in it:
+                    raise Undecided('closure item needs "sig" and "key": %r' % it)
+                cs, cbo, ce = FnRewriter(sf, fn_item, fnkey, None, unit, []).find_closure(int(it['closure']))
+                fn_item = ('fn', it['key'], cs, ce, cbo)
+                lifted = it['sig']
+                log.append({'rule': 'R7', 'fn': fnkey, 'line': sf.line_of(sf.toks[cs].start),
+                            'what': 'closure %s of %s::%s lifted to `%s`' % (it['closure'], it.get('impl', ''), it['fn'], it['sig'])})
             fov = ov.fns.get(fnkey)
             if fov is not None:
                 used_fnkeys.add(fnkey)
             raw = sf.text(fn_item[2], fn_item[3])
-            rw = FnRewriter(sf, fn_item, fnkey, fov, dict(unit, **{k: it[k] for k in ('rewrites', 'pathmap') if k in it}), log)
-            fp = rw.emit()
+            rw = FnRewriter(sf, fn_item, fnkey, fov, dict(unit, _sig=lifted, _wrap=wrap, **{k: it[k] for k in ('rewrites', 'pathmap') if k in it}), log)
+            for a in it.get('attrs', []):
+                # attributes for an extracted fn (e.g. #[verifier::exec_allows_no_decreases_clause]); logged
+                pieces.append(Piece(a + '\n', ('gen', 'attr')))
+                log.append({'rule': 'R8a', 'fn': fnkey, 'line': sf.line_of(sf.toks[fn_item[2]].start),
+                            'what': 'attribute %s placed on the extracted fn' % a})
+            if 'closure' in it and 'as' in it:
+                fp = rw.emit_lifted(int(it['closure']), it['as'], it['sig'], it.get('subst', {}))
+                raw = sf.text(rw.lifted_span[0], rw.lifted_span[1])
+                fn_item = (fn_item[0], fn_item[1], rw.lifted_span[0], rw.lifted_span[1], fn_item[4])
+            else:
+                fp = rw.emit()
             pieces.extend(fp)
             pieces.append(Piece('\n', ('gen', 'sep')))
             items_info.append({'fn': fnkey, 'file': it['file'],
@@ -885,6 +1751,8 @@ def build(unit_dir, repo, canary=False):
                 pieces.append(Piece('}\n', ('gen', 'impl close')))
                 open_impl = None
             kind = 'struct' if 'struct' in it else 'enum' if 'enum' in it else 'const' if 'const' in it else None
+            if kind is None and 'trait' in it:
+                kind = 'trait'   # trait declarations are extracted like types (default method bodies included)
             if kind is None:
                 raise Undecided('unit item not understood: %r' % it)
             found = sf.find_item(kind, it[kind], mod)
